@@ -80,6 +80,7 @@ func run(c *core.Ctx) {
 			}
 			for _, w := range workers {
 				oneCanvas(c, Case{e, k, w})
+				oneCanvas(c, Case{e, k, -w}) // the same box clipped by a smaller domain
 			}
 		}
 	}
